@@ -93,7 +93,8 @@ EDGE_ATOMS = (
     ("Literal['fast path', 'slow']", "the {n}", "slow"), ("Literal['fast path', 'slow']", "the {n} " + "very " * 12 + "long", "fast path"),
     ("str", "the {n}", "hello world and quite a few more words so that a wrapped line breaks inside the default text somewhere"),
     ("float", "the {n}", ABSENT), ("Optional[float]", "the {n}", ABSENT), ("str", "the {n}", "it's"), ("Optional[List[str]]", "the {n}", None),
-    ("Union[int, float]", "the {n}", 2.5),
+    ("Union[int, float]", "the {n}", 2.5), ("Tuple[int, int]", "the {n}", "```(1, 2)```"), ("List[int]", "the {n}", "```[16, 32]```"),
+    ("List[int]", "the {n}", "```n```"),
 )
 
 
